@@ -874,6 +874,17 @@ pub struct TxCtx {
     pub had_rx: bool,
 }
 
+/// What the harness knows about the receiving socket at the moment a segment is handed to it
+/// (only meaningful when that segment is the only one ingested by the next poll).
+pub struct RxCtx {
+    /// first unacknowledged byte of the socket's own stream (offset) and bytes queued behind it
+    pub una: i64,
+    pub sendq: i64,
+    /// next expected sequence number of the peer's stream, as offset from irs+1 (FIN counted)
+    pub rcv_nxt: i64,
+    pub state: tcp::State,
+}
+
 #[derive(Default)]
 pub struct TxOracle {
     pub side: usize,
@@ -885,6 +896,8 @@ pub struct TxOracle {
     pub peer_ws: Option<u8>,
     pub snd_max: i64,
     pub fin_off: Option<i64>,
+    /// right edge the socket may assume: the edge of the last segment it certainly accepted, or any
+    /// edge of a segment delivered since whose acceptance the harness cannot decide (maximum kept)
     pub max_edge: Option<i64>,
     pub zero_window_adv: bool,
     pub n_rto: u64,
@@ -917,8 +930,12 @@ impl TxOracle {
         }
     }
 
-    /// a segment (valid checksums) from the peer was handed to this endpoint's interface
-    pub fn on_delivered(&mut self, s: &Seg) {
+    /// A segment (valid checksums) from the peer was handed to this endpoint's interface.
+    /// `cx = Some(..)`: it was the only segment ingested by that poll, so the harness can decide in
+    /// the clear-cut case (an in-order pure ACK with an acceptable acknowledgment number in a state
+    /// that processes it) that the socket learned exactly this window ("last learned").  Otherwise the
+    /// edge only widens what the socket may legitimately assume.
+    pub fn on_delivered(&mut self, s: &Seg, cx: Option<&RxCtx>) {
         if s.has(F_RST) {
             return;
         }
@@ -958,7 +975,20 @@ impl TxOracle {
             return;
         }
         let edge = a + ((s.win as i64) << self.peer_scale());
-        self.max_edge = Some(self.max_edge.map_or(edge, |e| e.max(edge)));
+        let mut certain = false;
+        if let (Some(c), Some(irs)) = (cx, self.irs) {
+            let so = seqdiff(s.seq, irs.wrapping_add(1));
+            let state_ok = matches!(c.state, tcp::State::Established | tcp::State::FinWait1 | tcp::State::FinWait2 | tcp::State::CloseWait | tcp::State::Closing);
+            if a < c.una {
+                return; // below SND.UNA: dropped as a duplicate before the window is looked at
+            }
+            certain = state_ok && s.pay_len == 0 && !s.has(F_FIN) && so == c.rcv_nxt && a <= c.una + c.sendq;
+        }
+        if certain {
+            self.max_edge = Some(edge);
+        } else {
+            self.max_edge = Some(self.max_edge.map_or(edge, |e| e.max(edge)));
+        }
     }
 
     /// this endpoint emitted `s` (frame bytes in `frame`)
@@ -1034,7 +1064,7 @@ impl TxOracle {
                         if off + len > e && !probe {
                             out.fail(
                                 "c05-beyond-window",
-                                format!("{} segment off={} len={} ends {} bytes beyond the right edge {} of every window delivered so far{}", who, off, len, off + len - e, e, if off + len <= self.snd_max { " (retransmission)" } else { "" }),
+                                format!("{} segment off={} len={} ends {} bytes beyond the right edge {} of the window learned from the segments delivered so far{}", who, off, len, off + len - e, e, if off + len <= self.snd_max { " (retransmission)" } else { "" }),
                             );
                         }
                         if probe && off + len > e {
@@ -1445,6 +1475,8 @@ pub struct Ep {
     pub last_poll_t: i64,
     // oracle
     pub txo: TxOracle,
+    /// segments handed to the device since the last poll, with the socket state seen at that moment
+    pending: Vec<(Seg, RxCtx)>,
     buf: Vec<u8>,
 }
 
@@ -1457,6 +1489,12 @@ impl Ep {
     }
     fn rxfree(&self) -> usize {
         self.cfg.rx - self.sock_ref().recv_queue()
+    }
+    fn rx_ctx(&self) -> RxCtx {
+        let s = self.sock_ref();
+        let st = s.state();
+        let fin = matches!(st, tcp::State::CloseWait | tcp::State::LastAck | tcp::State::Closing | tcp::State::TimeWait) as i64;
+        RxCtx { una: self.written as i64 - s.send_queue() as i64, sendq: s.send_queue() as i64, rcv_nxt: self.read as i64 + s.recv_queue() as i64 + fin, state: st }
     }
     fn refresh_deadline(&mut self, now: i64) {
         self.deadline = self.iface.poll_at(Instant::from_micros(now), &self.sockets).map(|t| t.total_micros());
@@ -1557,6 +1595,7 @@ fn make_ep(cfg: &E2eCfg, side: usize) -> Ep {
         idle_polls_here: 0,
         last_poll_t: -1,
         txo: TxOracle::new(side),
+        pending: vec![],
         buf: vec![],
     }
 }
@@ -1708,6 +1747,12 @@ impl E2e {
             let q0 = e.sock_ref().recv_queue();
             rxfree_before = e.rxfree();
             let n0 = e.dev.n_rx;
+            // what the socket learns from the segments ingested by this poll (ingress precedes egress)
+            let pend = std::mem::take(&mut e.pending);
+            let single = pend.len() == 1 && e.dev.rx.len() == 1;
+            for (sg, cx) in &pend {
+                e.txo.on_delivered(sg, if single { Some(cx) } else { None });
+            }
             e.iface.poll(Instant::from_micros(now), &mut e.dev, &mut e.sockets);
             rx_n = e.dev.n_rx - n0;
             frames = e.dev.drain_tx();
@@ -2027,7 +2072,8 @@ impl E2e {
                     let e = &mut self.eps[to];
                     let (sp, dp) = if to == 0 { (PORT_B, PORT_A) } else { (PORT_A, PORT_B) };
                     if s.sport == sp && s.dport == dp && s.dst == e.addr {
-                        e.txo.on_delivered(&s);
+                        let cx = e.rx_ctx();
+                        e.pending.push((s.clone(), cx));
                     }
                     if self.tracing {
                         let b = seg_brief(&s, self.eps[1 - to].txo.iss, self.eps[1 - to].txo.irs);
@@ -2517,7 +2563,13 @@ impl RxSim {
             }
         }
         let seg = parse_tcp(Medium::Ip, &pkt).expect("own segment parses");
-        self.txo.on_delivered(&seg);
+        let cx = {
+            let s = self.sock_ref();
+            let st = s.state();
+            let fin = matches!(st, tcp::State::CloseWait | tcp::State::LastAck | tcp::State::Closing | tcp::State::TimeWait) as i64;
+            RxCtx { una: self.written as i64 - s.send_queue() as i64, sendq: s.send_queue() as i64, rcv_nxt: self.read as i64 + s.recv_queue() as i64 + fin, state: st }
+        };
+        self.txo.on_delivered(&seg, Some(&cx));
         if self.tracing {
             let b = seg_brief(&seg, Some(self.irs), self.txo.iss);
             self.tr(format!("peer tx {}", b));
